@@ -697,6 +697,46 @@ def check_adaptive_steps(h: Harness):
                     f"search() with step {desc}, population_size={n}: individuals per generation {counts}; weights at the end {step.weights}", replay)
 
 
+def check_shared_step_objects(h: Harness):
+    """ONE step object standing at several places of a composition (the same mutation step twice in a sequence, the same selection in
+    two branches): every place of the composition is an activation of its own -- asked for k, the composition yields k"""
+    from geneticengine.algorithms.gp.operators.combinators import SequenceStep
+    from geneticengine.algorithms.gp.operators.crossover import GenericCrossoverStep
+    from geneticengine.algorithms.gp.operators.elitism import ElitismStep
+    from geneticengine.algorithms.gp.operators.mutation import GenericMutationStep
+    from geneticengine.algorithms.gp.operators.novelty import NoveltyStep
+    from geneticengine.algorithms.gp.operators.selection import TournamentSelection
+    rng = h.rng
+    for trial in range(h.n(6, 40)):
+        g, r, rep = sc.tree_setup(rng.randrange(1000))
+        problem = SingleObjectiveProblem(lambda p: float(sc.count_nodes(p)), minimize=False)
+        m = GenericMutationStep(rng.choice([1, 0.5]))
+        c = GenericCrossoverStep(rng.choice([1, 0.5]))
+        t = TournamentSelection(2)
+        nov = NoveltyStep()
+        comps = [("seq[m,m]", SequenceStep(m, m)), ("seq[tournament,m,crossover,m]", SequenceStep(TournamentSelection(3), m, GenericCrossoverStep(0.5), m)),
+                 ("seq[t,c,t,c]", SequenceStep(t, c, t, c)), ("seq[nov,m,nov]", SequenceStep(nov, m, nov)),
+                 ("par[elitism,novelty,seq[t,m,m]]", ParallelStep([ElitismStep(), nov, SequenceStep(t, m, m)], [1, 1, 8])),
+                 ("par[seq[t,m],seq[t,m]]", ParallelStep([SequenceStep(t, m), SequenceStep(t, m)], [1, 1])),
+                 ("xpar[m,m,c]", ExclusiveParallelStep([m, m, c], [1, 1, 2]))]
+        for name, step in comps:
+            n = rng.randint(4, 12)
+            k = rng.randint(2, n)
+            pop = [Individual(rep.create_genotype(r), rep) for _ in range(n)]
+            form = rng.choice(["list", "iterator"])
+            try:
+                out = list(step.apply(problem, SequentialEvaluator(), rep, r, pop if form == "list" else iter(pop), k, 0))
+            except Exception as e:  # noqa: BLE001
+                h.fail("SequenceStep.apply", "raises", f"{name} (one step object at several places) asked for {k} of {n} ({form}): {type(e).__name__}: {e}", [name, n, k])
+                continue
+            h.count("shared-step-objects")
+            h.seen(f"shared-step:{name}:{n}:{k}:{form}", nontrivial=True)
+            if len(out) != k:
+                h.fail("SequenceStep.apply" if name.startswith("seq") else "ParallelStep.apply", "wrong-count",
+                       f"{name} (m, c, t, nov: ONE step object each, standing at several places) asked for {k} individuals of a population of {n} "
+                       f"(given as {form}) yielded {len(out)}", [name, n, k, form])
+
+
 def run(h: Harness):
     check_ranges(h)
     check_compositions(h)
@@ -711,3 +751,4 @@ def run(h: Harness):
     check_gp_stub(h)
     check_gp_tree(h)
     check_adaptive_steps(h)
+    check_shared_step_objects(h)
